@@ -117,14 +117,25 @@ impl Ro {
             if self.kw & bit != 0 { for _ in 0..1 + r.below(3) { list.push(s); } }
         }
         for i in (1..list.len()).rev() { let j = r.below(i as u64 + 1) as usize; list.swap(i, j); }
-        base.with_keyword_syntaxes(list)
-            .with_nil_symbol(match self.nil { 0 => NilSymbol::EmptyList, 1 => NilSymbol::Default, _ => NilSymbol::Special })
-            .with_t_symbol(if self.t == 0 { TSymbol::True } else { TSymbol::Default })
-            .with_brackets(if self.brackets == 0 { Brackets::List } else { Brackets::Vector })
-            .with_string_syntax(if self.string == 0 { parse::StringSyntax::R6RS } else { parse::StringSyntax::Elisp })
-            .with_char_syntax(if self.chr == 0 { parse::CharSyntax::R6RS } else { parse::CharSyntax::Elisp })
-            .with_racket_hash_percent_symbols(self.racket == 1)
-            .with_leading_digit_symbols(self.digit == 1)
+        // every setter determines its own option completely, so the order of the calls -
+        // and calling one twice - must not matter: apply them in a random order
+        let mut order: Vec<u8> = (0..8).collect();
+        if r.chance(1, 2) { order.push(r.below(8) as u8); }
+        for i in (1..order.len()).rev() { let j = r.below(i as u64 + 1) as usize; order.swap(i, j); }
+        let mut o = base;
+        for step in order {
+            o = match step {
+                0 => o.with_keyword_syntaxes(list.clone()),
+                1 => o.with_nil_symbol(match self.nil { 0 => NilSymbol::EmptyList, 1 => NilSymbol::Default, _ => NilSymbol::Special }),
+                2 => o.with_t_symbol(if self.t == 0 { TSymbol::True } else { TSymbol::Default }),
+                3 => o.with_brackets(if self.brackets == 0 { Brackets::List } else { Brackets::Vector }),
+                4 => o.with_string_syntax(if self.string == 0 { parse::StringSyntax::R6RS } else { parse::StringSyntax::Elisp }),
+                5 => o.with_char_syntax(if self.chr == 0 { parse::CharSyntax::R6RS } else { parse::CharSyntax::Elisp }),
+                6 => o.with_racket_hash_percent_symbols(self.racket == 1),
+                _ => o.with_leading_digit_symbols(self.digit == 1),
+            };
+        }
+        o
     }
     /// What the getters of an option set report, as a Ro.
     pub fn of_options(o: parse::Options) -> Ro {
